@@ -7,7 +7,9 @@
    conntrack, i.e. every tracked flow is forgotten (C19_wrap_resets). So no entry survives a wrap, and within an epoch
    versions only grow: an entry that carries the current version was validated against the current rules
    (C19_current_version_means_validated), for any number of reloads. The price: at the wrap a reload that changes
-   nothing about the rules does cut established flows (C19_same_rules_wrap_refuted). *)
+   nothing about the rules does cut established flows (C19_same_rules_wrap_refuted; known finding F25, signature
+   reload-version-wrap) - which is why C19_same_rules_never_cut and C19_history_spec_as_stated carry the no-wrap
+   hypothesis. *)
 From Coq Require Import List ZArith NArith Bool.
 Import ListNotations.
 From NV Require Import gen.Consts_Conntrack model.Wheel model.Conntrack model.FwReload
@@ -17,15 +19,28 @@ Open Scope Z_scope.
 (* ALL histories of packets, sleeps and reloads, every flow: the verdicts satisfy the history-level specification:
    after a reload a tracked flow is honoured only once its ORIGINAL direction has been re-checked against the rules
    now loaded (flag fr of FKnown), by the first packet of the flow after the reload; if that fails the flow is
-   forgotten and the packet is judged by the rules alone; at the wrap every flow is forgotten. *)
+   forgotten and the packet is judged by the rules alone; at the wrap every flow is forgotten (`true`). *)
 Theorem C19_history_spec : forall allowed addr_ok rs v0 tcp udp def t0 h f,
   (v0 < 65536)%N ->
-  flow_ok allowed addr_ok f (spec_boot rs v0 tcp udp def t0) h
+  flow_ok allowed addr_ok true f (spec_boot rs v0 tcp udp def t0) h
           (verdicts allowed addr_ok h (boot rs v0 tcp udp def t0)) = true.
 Proof.
   intros. apply model_meets_spec; [now apply vinv_boot|apply Rf_boot].
 Qed.
 Print Assumptions C19_history_spec.
+
+(* The specification as the property states it ([flow_ok ... false]: a reload only ever marks flows for revalidation,
+   it never forgets one whose original direction the new rules allow) holds on every history in which rulesVersion
+   does not wrap. This is the specification the correspondence evaluates on the implementation's verdicts; the wrap
+   is the known finding F25 (C19_same_rules_wrap_refuted). *)
+Theorem C19_history_spec_as_stated : forall allowed addr_ok rs v0 tcp udp def t0 h f,
+  (v0 < 65536)%N -> no_wrap v0 h = true ->
+  flow_ok allowed addr_ok false f (spec_boot rs v0 tcp udp def t0) h
+          (verdicts allowed addr_ok h (boot rs v0 tcp udp def t0)) = true.
+Proof.
+  intros. rewrite flow_ok_no_wrap by assumption. apply model_meets_spec; [now apply vinv_boot|apply Rf_boot].
+Qed.
+Print Assumptions C19_history_spec_as_stated.
 
 (* After any sequence of reloads and traffic: a packet passes only if the address checks pass and either a rule of
    the rules NOW loaded allows it, or its flow is tracked, not idle past its timeout, and the flow's ORIGINAL
